@@ -56,6 +56,10 @@ func runVCs(vcs []VC, workDir string, timeout time.Duration, par int) []vcResult
 			defer wg.Done()
 			sem <- struct{}{}
 			defer func() { <-sem }()
+			if vcs[i].Run != nil {
+				out[i].res = vcs[i].Run()
+				return
+			}
 			file := filepath.Join(workDir, sanitizeFile(vcs[i].Name)+".smt2")
 			to := timeout
 			if vcs[i].ExpectSat && to > 2*time.Second {
